@@ -1,5 +1,9 @@
 pub mod core;
 pub mod pay;
+pub mod rpkigen;
+pub mod erpki;
+pub mod escen;
+pub mod erun;
 pub mod c01;
 pub mod c02;
 pub mod c03;
